@@ -63,6 +63,27 @@ static void rand_b(void *p, size_t n) { do_rand(1, p, n); }
 static uint64_t time_a(void) { E.n_time++; E.last_table = 0; logc('T'); if (E.clock_seq_n > 0) return E.clock_seq[E.clock_seq_i++ % E.clock_seq_n]; return E.clock[0]; }
 static uint64_t time_b(void) { E.n_time++; E.last_table = 1; logc('T'); return E.clock[1]; }
 
+/* ---- the process environment.  A library function that asks for an environment variable gets an answer: every name outside the
+ * ones the harness and the C library themselves use "exists" and holds a number.  The unchanged library never asks.  (Defining
+ * getenv here interposes it for the harness and the library object only; the C library's internal lookups - TZ, LOCPATH, LC_* -
+ * do not go through this symbol.) */
+extern char **environ;
+unsigned long E_env_asked; char E_env_last[64];
+static char *real_getenv(const char *name) { size_t l = strlen(name); for (char **e = environ; e && *e; e++) if (!strncmp(*e, name, l) && (*e)[l] == '=') return *e + l + 1; return NULL; }
+static int env_passthrough(const char *n) {
+    static const char *P[] = { "TZ", "LOCPATH", "LANG", "LANGUAGE", "HOME", "PATH", "TMPDIR", "PWD", "USER", "SHELL", "TERM", "POSIXLY_CORRECT", NULL };
+    static const char *PRE[] = { "LC_", "VERIF_", "ASAN_", "UBSAN_", "TSAN_", "LSAN_", "MSAN_", "MALLOC_", "LD_", "GLIBC_", "GCONV_", "NLSPATH", "OUTPUT_CHARSET", NULL };
+    for (int i = 0; P[i]; i++) if (!strcmp(n, P[i])) return 1;
+    for (int i = 0; PRE[i]; i++) if (!strncmp(n, PRE[i], strlen(PRE[i]))) return 1;
+    return 0;
+}
+char *getenv(const char *name) {
+    if (!name) return NULL;
+    if (env_passthrough(name)) return real_getenv(name);
+    E_env_asked++; snprintf(E_env_last, sizeof E_env_last, "%s", name);
+    return (char *)"1000";
+}
+char *secure_getenv(const char *name) { return getenv(name); }
 int E_kdf_table;   /* which table's KDF is executing */
 size_t E_kdf_write_limit;   /* 0 = write the whole key */
 void (*E_kdf_hook)(uint8_t *key, size_t keylen);   /* called after the key is written (C04 page protection) */
